@@ -348,12 +348,14 @@ def fisherDoc (ops : FieldOps F) (ext : FieldExt F) (d : Nat) (Tmax D r g : Rat)
       (ops.add (ops.smul D (laplacian ops d u)) (ops.mul u (ops.sub (const ops ext r) (ops.smul g u)))))
 
 /-- Fokker–Planck 2D, `−Σ_i ∂i(μ_i u) + Σ_i Σ_j ∂i∂j(D_ij u) = ∂t u`:
-    residual `−∂t u + Tmax·(−Σ_{i<2} ∂i(μ_i u) + Σ_{i<2} Σ_{j<2} ∂i ∂j (D_ij u))` -/
+    residual `−∂t u + Tmax·(−Σ_{i<2} ∂i(μ_i u) + Σ_{i<2} Σ_{j<2} ∂i ∂j (u D_ij))`
+    (the product with the scalar entry `D_ij` is written in the operand order of the code; the
+    documented formula does not fix one). -/
 def fpeDoc (ops : FieldOps F) (Tmax : Rat) (drift : Nat → F) (diff : Nat → Nat → F) (u : F) : F :=
   ops.add (ops.neg (ops.dT u))
     (ops.smul Tmax
       (ops.add (ops.neg (ops.sum 2 (fun i => ops.dX i (ops.mul (drift i) u))))
-        (ops.sum 2 (fun i => ops.sum 2 (fun j => ops.dX i (ops.dX j (ops.mul (diff i j) u)))))))
+        (ops.sum 2 (fun i => ops.sum 2 (fun j => ops.dX i (ops.dX j (ops.mul u (diff i j))))))))
 
 /-- the OU instance of the documented FPE: `μ_i = α_i (μ⁰_i − x_i)`, `D = ½ σσᵀ`, `σ = diag` -/
 def ouDoc (ops : FieldOps F) (ext : FieldExt F) (Tmax : Rat) (alpha mu sigma : List Rat) (u : F) : F :=
